@@ -463,14 +463,27 @@ func (gb *gcpBalancer) currentSubConn(ref *subConnRef) balancer.SubConn {
 func (gb *gcpBalancer) bindSubConn(bindKey string, sc balancer.SubConn) {
 	gb.mu.Lock()
 	defer gb.mu.Unlock()
-	ref, known := gb.scRefs[sc]
-	if !known {
+	gb.bindLocked(bindKey, gb.scRefs[sc])
+}
+
+// bindSubConnRef binds the given affinity key to the SubConn that serves the subConnRef
+// at the moment of binding. Reading the SubConn and binding to it is a single step with
+// respect to a concurrent refresh of the subConnRef, so the binding cannot get lost.
+func (gb *gcpBalancer) bindSubConnRef(bindKey string, ref *subConnRef) {
+	gb.mu.Lock()
+	defer gb.mu.Unlock()
+	gb.bindLocked(bindKey, ref)
+}
+
+// bindLocked must be called with gb.mu held.
+func (gb *gcpBalancer) bindLocked(bindKey string, ref *subConnRef) {
+	if ref == nil || gb.scRefs[ref.subConn] != ref {
 		// The subconn is not in the pool (anymore), there is nothing to bind to.
 		return
 	}
 	_, ok := gb.affinityMap[bindKey]
 	if !ok {
-		gb.affinityMap[bindKey] = sc
+		gb.affinityMap[bindKey] = ref.subConn
 	}
 	ref.affinityIncr()
 }
